@@ -34,3 +34,10 @@ package lua
 // Operations reported as read-only never modify state.
 //@ func isReadOnly
 //@ ensures[C31:read-only-means-read-only] result ==> specReadOnlyOperation(operation)
+
+// C32. A malformed entry of the configured list never widens trust (ghost scenario over a table of entries and peers,
+// bounded random search: the deductive contracts above do not say which networks the parsed list contains).
+//@ func verifOnlyConfiguredRangesAreTrusted
+//@ mode nosafety
+//@ bounded 3000
+//@ ensures[C32:malformed-entries-never-widen-trust] result
